@@ -63,6 +63,8 @@ structure Upd (now : Nat) (s s' : Store) : Prop where
   olen : s'.orders.length = s.orders.length
   authz : ∀ (i : Nat) (az : Authz), s.authzs[i]? = some az → ∃ az', s'.authzs[i]? = some az' ∧ AzJust s now az az'
   order : ∀ (i : Nat) (o : Order), s.orders[i]? = some o → ∃ o', s'.orders[i]? = some o' ∧ OrdJust s' now o o'
+  /-- status recomputation never touches a recorded key fingerprint -/
+  fp : ∀ (i : Nat) (az : Authz), s.authzs[i]? = some az → ∃ az', s'.authzs[i]? = some az' ∧ az'.fp = az.fp
 
 theorem chalValid_congr {s s' : Store} (h : s'.chals = s.chals) (c : Nat) : chalValid s' c = chalValid s c := by
   simp [chalValid, h]
@@ -70,7 +72,8 @@ theorem chalValid_congr {s s' : Store} (h : s'.chals = s.chals) (c : Nat) : chal
 theorem AzJust.refl (s : Store) (now : Nat) (az : Authz) : AzJust s now az az := ⟨rfl, rfl, rfl, .inl rfl⟩
 
 theorem Upd.refl (now : Nat) (s : Store) : Upd now s s :=
-  ⟨rfl, rfl, rfl, rfl, fun _ az h => ⟨az, h, AzJust.refl _ _ _⟩, fun _ o h => ⟨o, h, rfl, rfl, rfl, rfl, .inl rfl⟩⟩
+  ⟨rfl, rfl, rfl, rfl, fun _ az h => ⟨az, h, AzJust.refl _ _ _⟩, fun _ o h => ⟨o, h, rfl, rfl, rfl, rfl, .inl rfl⟩,
+   fun _ az h => ⟨az, h, rfl⟩⟩
 
 theorem validAz_mono {now : Nat} {s s' : Store} (u : Upd now s s') {a : Nat} (h : validAz s a) : validAz s' a := by
   obtain ⟨az, ha, hv⟩ := h
@@ -82,7 +85,12 @@ theorem validAz_mono {now : Nat} {s s' : Store} (u : Upd now s s') {a : Nat} (h 
   · rw [hv] at p; cases p
 
 theorem Upd.trans {now : Nat} {s s1 s2 : Store} (u1 : Upd now s s1) (u2 : Upd now s1 s2) : Upd now s s2 := by
-  refine ⟨u2.chals.trans u1.chals, u2.certs.trans u1.certs, u2.alen.trans u1.alen, u2.olen.trans u1.olen, ?_, ?_⟩
+  refine ⟨u2.chals.trans u1.chals, u2.certs.trans u1.certs, u2.alen.trans u1.alen, u2.olen.trans u1.olen, ?_, ?_, ?_⟩
+  rotate_left 2
+  · intro i az h
+    obtain ⟨az1, h1, e1⟩ := u1.fp i az h
+    obtain ⟨az2, h2, e2⟩ := u2.fp i az1 h1
+    exact ⟨az2, h2, e2.trans e1⟩
   · intro i az h
     obtain ⟨az1, h1, a1, e1, c1, j1⟩ := u1.authz i az h
     obtain ⟨az2, h2, a2, e2, c2, j2⟩ := u2.authz i az1 h1
@@ -128,7 +136,7 @@ theorem upd_setAuthz (now : Nat) (s : Store) (a : Nat) (az : Authz) (st : Status
     rcases Nat.lt_or_ge a s.authzs.length with h' | h'
     · exact h'
     · rw [List.getElem?_eq_none h'] at h; cases h
-  refine ⟨rfl, rfl, by simp [setAuthz], rfl, ?_, ?_⟩
+  refine ⟨rfl, rfl, by simp [setAuthz], rfl, ?_, ?_, ?_⟩
   · intro i az0 h0
     by_cases e : a = i
     · subst e
@@ -137,6 +145,12 @@ theorem upd_setAuthz (now : Nat) (s : Store) (a : Nat) (az : Authz) (st : Status
     · exact ⟨az0, by simp [setAuthz, List.getElem?_set_ne e, h0], AzJust.refl _ _ _⟩
   · intro i o h0
     exact ⟨o, h0, rfl, rfl, rfl, rfl, .inl rfl⟩
+  · intro i az0 h0
+    by_cases e : a = i
+    · subst e
+      rw [h] at h0; cases h0
+      exact ⟨{ az with status := st }, by simp [setAuthz, hlt], rfl⟩
+    · exact ⟨az0, by simp [setAuthz, List.getElem?_set_ne e, h0], rfl⟩
 
 theorem authzUpdate_upd (d : Deny) (s : Store) (a now : Nat) :
     Upd now s (authzUpdate d s a now).1 ∧
@@ -225,7 +239,7 @@ theorem upd_setOrder (now : Nat) (s : Store) (o : Nat) (ord : Order) (st : Statu
     (hj : OrdJust (setOrder s o ord st ord.cert) now ord { ord with status := st }) :
     Upd now s (setOrder s o ord st ord.cert) := by
   have hlt := lt_of_getElem? h
-  refine ⟨rfl, rfl, rfl, by simp [setOrder], ?_, ?_⟩
+  refine ⟨rfl, rfl, rfl, by simp [setOrder], ?_, ?_, fun i az h0 => ⟨az, h0, rfl⟩⟩
   · intro i az h0
     exact ⟨az, h0, AzJust.refl _ _ _⟩
   · intro i o0 h0
@@ -349,9 +363,10 @@ theorem upd_of_eq (now : Nat) (s s' : Store) (h1 : s'.chals = s.chals) (h2 : s'.
     (h3 : s'.orders = s.orders) (h4 : s'.certs = s.certs) : Upd now s s' :=
   ⟨h1, h4, by rw [h2], by rw [h3],
    fun i az h => ⟨az, by rw [h2]; exact h, AzJust.refl _ _ _⟩,
-   fun i o h => ⟨o, by rw [h3]; exact h, rfl, rfl, rfl, rfl, .inl rfl⟩⟩
+   fun i o h => ⟨o, by rw [h3]; exact h, rfl, rfl, rfl, rfl, .inl rfl⟩,
+   fun i az h => ⟨az, by rw [h2]; exact h, rfl⟩⟩
 
-theorem pollLoop_upd (d : Deny) (now : Nat) : ∀ (os : List Nat) (s : Store), Upd now s (pollLoop d s now os).1 := by
+theorem pollLoop_upd (d : Deny) (now : Nat) (incl : Bool) : ∀ (os : List Nat) (s : Store), Upd now s (pollLoop d s now incl os).1 := by
   intro os
   induction os with
   | nil => intro s; exact Upd.refl _ _
@@ -367,16 +382,16 @@ theorem pollLoop_upd (d : Deny) (now : Nat) : ∀ (os : List Nat) (s : Store), U
       | some st =>
         simp only
         have u2 := ih s1
-        cases h2 : pollLoop d s1 now os with
+        cases h2 : pollLoop d s1 now incl os with
         | mk s2 r' =>
           rw [h2] at u2
           cases r' <;> exact u1.trans u2
 
-theorem pollIndex_upd (d : Deny) (s : Store) (acct now : Nat) (add : List Nat) : Upd now s (pollIndex d s acct now add).1 := by
+theorem pollIndex_upd (d : Deny) (s : Store) (acct now : Nat) (incl : Bool) (add : List Nat) : Upd now s (pollIndex d s acct now incl add).1 := by
   unfold pollIndex
   simp only
-  have u := pollLoop_upd d now ((indexOf s acct).getD []) s
-  cases h : pollLoop d s now ((indexOf s acct).getD []) with
+  have u := pollLoop_upd d now incl ((indexOf s acct).getD []) s
+  cases h : pollLoop d s now incl ((indexOf s acct).getD []) with
   | mk s1 r =>
     rw [h] at u
     cases r with
@@ -389,10 +404,21 @@ theorem pollIndex_upd (d : Deny) (s : Store) (acct now : Nat) (add : List Nat) :
 
 /-! ## what one request may do to the objects that existed before it -/
 
+/-- a response to a Wire challenge: the only request in which a challenge and (through
+    `GetAllOrdersByAccountID`) its authorization and order can move together -/
+def _root_.Verif.AcmeSM.Op.isWire : Op → Bool
+  | .wire _ _ _ _ _ => true
+  | _ => false
+
+/-- the store in which the cause of an authorization becoming valid is to be found: the one before
+    the request, except for a Wire challenge response, which validates the challenge and updates
+    the account's orders in one request -/
+def causeStore (op : Op) (s s' : Store) : Store := if op.isWire then s' else s
+
 def ChalStep (op : Op) (i : Nat) (c c' : Chal) : Prop :=
   c'.acct = c.acct ∧ (c'.status = c.status ∨
-    (c.status = .pending ∧ ∃ now out, op = .respond c.acct i now out ∧
-       ((out = .success ∧ c'.status = .valid) ∨ (out = .reject ∧ c'.status = .invalid))))
+    (c.status = .pending ∧ ∃ now out, (op = .respond c.acct i now out ∨ (∃ az, op = .attest c.acct i az now out) ∨ (∃ dp, op = .wire c.acct i now dp out)) ∧
+       ((out.key.isSome = true ∧ c'.status = .valid) ∨ (out = .reject ∧ c'.status = .invalid))))
 
 def OrdStep (op : Op) (s s' : Store) (i : Nat) (o o' : Order) : Prop :=
   o'.acct = o.acct ∧ o'.expires = o.expires ∧ o'.authzs = o.authzs ∧
@@ -400,14 +426,15 @@ def OrdStep (op : Op) (s s' : Store) (i : Nat) (o o' : Order) : Prop :=
    ((o.status = .pending ∨ o.status = .ready) ∧ o'.status = .invalid ∧ o'.cert = o.cert) ∨
    (o.status = .pending ∧ o'.status = .ready ∧ o'.cert = o.cert ∧ op.now ≤ o.expires ∧
       ∀ a ∈ o.authzs, validAz s' a) ∨
-   (o'.status = .valid ∧ op = .finalize o.acct i op.now true true false ∧ op.now ≤ o.expires ∧
+   (o'.status = .valid ∧ (∃ k, op = .finalize o.acct i op.now k true true false ∧
+        keyGate (orderFp s' o) o.attested k = true) ∧ op.now ≤ o.expires ∧
       (o.status = .ready ∨ (o.status = .pending ∧ ∀ a ∈ o.authzs, validAz s' a)) ∧
       o'.cert = some s.certs.length ∧ s'.certs = s.certs ++ [⟨i, o.acct⟩]))
 
 structure Old (d : Deny) (op : Op) (s s' : Store) : Prop where
   chal : ∀ (i : Nat) (c : Chal), s.chals[i]? = some c → ∃ c', s'.chals[i]? = some c' ∧ ChalStep op i c c'
   authz : ∀ (i : Nat) (az : Authz), s.authzs[i]? = some az →
-    ∃ az', s'.authzs[i]? = some az' ∧ AzJust s op.now az az'
+    ∃ az', s'.authzs[i]? = some az' ∧ AzJust (causeStore op s s') op.now az az'
   order : ∀ (i : Nat) (o : Order), s.orders[i]? = some o →
     ∃ o', s'.orders[i]? = some o' ∧ OrdStep op s s' i o o'
   certs : s'.certs = s.certs ∨
@@ -424,16 +451,34 @@ theorem ordStep_of_just {op : Op} {s s' : Store} {i : Nat} {o o' : Order}
   · exact .inr (.inl ⟨p, q, c⟩)
   · exact .inr (.inr (.inl ⟨p, q, c, r, w⟩))
 
+theorem azJust_congr {s s' : Store} (h : s'.chals = s.chals) {now : Nat} {az az' : Authz}
+    (j : AzJust s now az az') : AzJust s' now az az' := by
+  obtain ⟨a, e, c, j⟩ := j
+  refine ⟨a, e, c, ?_⟩
+  rcases j with j | j | ⟨p, q, r, x, hx, hv⟩
+  · exact .inl j
+  · exact .inr (.inl j)
+  · exact .inr (.inr ⟨p, q, r, x, hx, by rw [chalValid_congr h]; exact hv⟩)
+
 theorem old_of_upd {d : Deny} {op : Op} {s s' : Store} (u : Upd op.now s s') : Old d op s s' := by
-  refine ⟨?_, u.authz, ?_, .inl u.certs⟩
-  · intro i c h; exact ⟨c, by rw [u.chals]; exact h, rfl, .inl rfl⟩
+  refine ⟨?_, ?_, ?_, .inl u.certs⟩
+  rotate_left
+  · intro i az h
+    obtain ⟨az', h', j⟩ := u.authz i az h
+    refine ⟨az', h', ?_⟩
+    unfold causeStore
+    split
+    · exact azJust_congr u.chals j
+    · exact j
   · intro i o h
     obtain ⟨o', h', j⟩ := u.order i o h
     exact ⟨o', h', ordStep_of_just j⟩
+  · intro i c h; exact ⟨c, by rw [u.chals]; exact h, rfl, .inl rfl⟩
 
-theorem respond_old (d : Deny) (s : Store) (acct c now : Nat) (out : Outcome) :
-    Old d (.respond acct c now out) s (respond d s acct c out).1 := by
-  have base : Old d (.respond acct c now out) s s := old_of_upd (Upd.refl _ _)
+theorem respond_old_gen (d : Deny) (s : Store) (acct c now : Nat) (out : Outcome) (op : Op)
+    (hop : op = .respond acct c now out ∨ (∃ az, op = .attest acct c az now out) ∨ ∃ dp, op = .wire acct c now dp out) :
+    Old d op s (respond d s acct c out).1 := by
+  have base : Old d op s s := old_of_upd (Upd.refl _ _)
   unfold respond
   cases h : s.chals[c]? with
   | none => exact base
@@ -450,8 +495,10 @@ theorem respond_old (d : Deny) (s : Store) (acct c now : Nat) (out : Outcome) :
     have hst' : ch.status = .pending := by simpa using hst
     split
     · exact base
-    have mk : ∀ st, ((out = .success ∧ st = Status.valid) ∨ (out = .reject ∧ st = Status.invalid)) →
-        Old d (.respond acct c now out) s (setChal s c ch st) := by
+    split
+    · exact base
+    have mk : ∀ st, ((out.key.isSome = true ∧ st = Status.valid) ∨ (out = .reject ∧ st = Status.invalid)) →
+        Old d op s (setChal s c ch st) := by
       intro st hout
       refine ⟨?_, fun i az h0 => ⟨az, h0, AzJust.refl _ _ _⟩,
         fun i o h0 => ⟨o, h0, rfl, rfl, rfl, .inl ⟨rfl, rfl⟩⟩, .inl rfl⟩
@@ -460,13 +507,106 @@ theorem respond_old (d : Deny) (s : Store) (acct c now : Nat) (out : Outcome) :
       · subst e
         rw [h] at h0; cases h0
         exact ⟨{ ch with status := st }, by simp [setChal, hlt], rfl,
-          .inr ⟨hst', now, out, by rw [hacct'], hout⟩⟩
+          .inr ⟨hst', now, out, by rw [hacct']; exact hop, hout⟩⟩
       · exact ⟨c0, by simp [setChal, List.getElem?_set_ne e, h0], rfl, .inl rfl⟩
     cases out with
     | success => exact mk .valid (.inl ⟨rfl, rfl⟩)
+    | successKey k => exact mk .valid (.inl ⟨rfl, rfl⟩)
     | retry => exact base
     | reject => exact mk .invalid (.inr ⟨rfl, rfl⟩)
     | dbError => exact base
+
+theorem respond_old (d : Deny) (s : Store) (acct c now : Nat) (out : Outcome) :
+    Old d (.respond acct c now out) s (respond d s acct c out).1 :=
+  respond_old_gen d s acct c now out _ (.inl rfl)
+
+/-- the fingerprint write leaves every status, owner, expiry and child list as it was -/
+theorem setFp_get (s : Store) (a : Nat) (azr : Authz) (k : Nat) (h : s.authzs[a]? = some azr) (i : Nat) (az : Authz)
+    (h0 : s.authzs[i]? = some az) :
+    ∃ az', (setFp s a azr k).authzs[i]? = some az' ∧ az'.acct = az.acct ∧ az'.expires = az.expires ∧
+      az'.chals = az.chals ∧ az'.status = az.status := by
+  have hlt := lt_of_getElem? h
+  by_cases e : a = i
+  · subst e
+    rw [h] at h0; cases h0
+    exact ⟨{ azr with fp := some k }, by simp [setFp, hlt], rfl, rfl, rfl, rfl⟩
+  · exact ⟨az, by simp [setFp, List.getElem?_set_ne e, h0], rfl, rfl, rfl, rfl⟩
+
+theorem attest_old (d : Deny) (s : Store) (acct c az now : Nat) (out : Outcome) :
+    Old d (.attest acct c az now out) s (attest d s acct c az out).1 := by
+  have base : Old d (.attest acct c az now out) s s := old_of_upd (Upd.refl _ _)
+  unfold attest
+  cases h : s.chals[c]? with
+  | none => exact base
+  | some ch =>
+    have hlt := lt_of_getElem? h
+    simp only
+    split
+    · exact base
+    rename_i hacct
+    split
+    · exact base
+    rename_i hst
+    have hacct' : ch.acct = acct := by simpa using hacct
+    have hst' : ch.status = .pending := by simpa using hst
+    split
+    · -- not a device-attest challenge: exactly `respond`
+      exact respond_old_gen d s acct c now out _ (.inr (.inl ⟨az, rfl⟩))
+    cases haz : s.authzs[az]? with
+    | none => exact base
+    | some azr =>
+      simp only
+      split
+      · exact base
+      split
+      · exact base
+      -- a status write of the challenge on top of a store `s0` that differs from `s` only by a fingerprint
+      have mk : ∀ (s0 : Store) (st : Status), s0.chals = s.chals → s0.orders = s.orders → s0.certs = s.certs →
+          (∀ (i : Nat) (a0 : Authz), s.authzs[i]? = some a0 → ∃ a', s0.authzs[i]? = some a' ∧ a'.acct = a0.acct ∧
+            a'.expires = a0.expires ∧ a'.chals = a0.chals ∧ a'.status = a0.status) →
+          ((out.key.isSome = true ∧ st = Status.valid) ∨ (out = .reject ∧ st = Status.invalid)) →
+          Old d (.attest acct c az now out) s (setChal s0 c ch st) := by
+        intro s0 st hc ho hce ha hout
+        refine ⟨?_, ?_, ?_, .inl (by simp [setChal, hce])⟩
+        · intro i c0 h0
+          by_cases e : c = i
+          · subst e
+            rw [h] at h0; cases h0
+            exact ⟨{ ch with status := st }, by simp [setChal, hc, hlt], rfl,
+              .inr ⟨hst', now, out, .inr (.inl ⟨az, by rw [hacct']⟩), hout⟩⟩
+          · exact ⟨c0, by simp [setChal, hc, List.getElem?_set_ne e, h0], rfl, .inl rfl⟩
+        · intro i a0 h0
+          obtain ⟨a', h', x, y, z, w⟩ := ha i a0 h0
+          exact ⟨a', by simpa [setChal] using h', x, y, z, .inl w⟩
+        · intro i o h0
+          exact ⟨o, by simp [setChal, ho, h0], rfl, rfl, rfl, .inl ⟨rfl, rfl⟩⟩
+      have fpOnly : ∀ k, Old d (.attest acct c az now out) s (setFp s az azr k) := by
+        intro k
+        refine ⟨fun i c0 h0 => ⟨c0, by simpa [setFp] using h0, rfl, .inl rfl⟩, ?_,
+          fun i o h0 => ⟨o, by simpa [setFp] using h0, rfl, rfl, rfl, .inl ⟨rfl, rfl⟩⟩, .inl rfl⟩
+        intro i a0 h0
+        obtain ⟨a', h', x, y, z, w⟩ := setFp_get s az azr k haz i a0 h0
+        exact ⟨a', h', x, y, z, .inl w⟩
+      cases hk : out.key with
+      | none =>
+        simp only
+        cases out with
+        | reject =>
+          simp only
+          split
+          · exact base
+          · exact mk s .invalid rfl rfl rfl (fun i a0 h0 => ⟨a0, h0, rfl, rfl, rfl, rfl⟩) (.inr ⟨rfl, rfl⟩)
+        | success => simp [Outcome.key] at hk
+        | successKey k => simp [Outcome.key] at hk
+        | retry => exact base
+        | dbError => exact base
+      | some k =>
+        simp only
+        split
+        · exact base
+        split
+        · exact fpOnly k
+        · exact mk (setFp s az azr k) .valid rfl rfl rfl (setFp_get s az azr k haz) (.inl ⟨by simp [hk], rfl⟩)
 
 theorem getAuthz_old (d : Deny) (s : Store) (acct a now : Nat) :
     Old d (.getAuthz acct a now) s (getAuthz d s acct a now).1 := by
@@ -501,16 +641,20 @@ theorem listOrders_old (d : Deny) (s : Store) (acct url now : Nat) :
   unfold listOrders
   split
   · exact old_of_upd (Upd.refl _ _)
-  have u := pollIndex_upd d s acct now []
-  cases h : pollIndex d s acct now [] with
+  have u := pollIndex_upd d s acct now false []
+  cases h : pollIndex d s acct now false [] with
   | mk s1 r =>
     rw [h] at u
     cases r <;> exact old_of_upd (op := .listOrders acct url now) u
 
 
-theorem finalize_old (d : Deny) (s : Store) (acct o now : Nat) (csrOk signOk updFail : Bool) :
-    Old d (.finalize acct o now csrOk signOk updFail) s (finalize d s acct o now csrOk signOk updFail).1 := by
-  have base : Old d (.finalize acct o now csrOk signOk updFail) s s := old_of_upd (Upd.refl _ _)
+theorem orderFp_congr {s s' : Store} (h : s'.authzs = s.authzs) (o : Order) :
+    orderFp s' o = orderFp s o := by
+  simp [orderFp, h]
+
+theorem finalize_old (d : Deny) (s : Store) (acct o now : Nat) (keyOk : Nat) (csrOk signOk updFail : Bool) :
+    Old d (.finalize acct o now keyOk csrOk signOk updFail) s (finalize d s acct o now keyOk csrOk signOk updFail).1 := by
+  have base : Old d (.finalize acct o now keyOk csrOk signOk updFail) s s := old_of_upd (Upd.refl _ _)
   unfold finalize
   cases ho : s.orders[o]? with
   | none => exact base
@@ -526,7 +670,7 @@ theorem finalize_old (d : Deny) (s : Store) (acct o now : Nat) (csrOk signOk upd
     | mk s1 r =>
       rw [hu] at u hret hrdy
       dsimp only at u hret hrdy
-      have ou : Old d (.finalize acct o now csrOk signOk updFail) s s1 := old_of_upd u
+      have ou : Old d (.finalize acct o now keyOk csrOk signOk updFail) s s1 := old_of_upd u
       cases r with
       | none => exact ou
       | some st =>
@@ -536,6 +680,9 @@ theorem finalize_old (d : Deny) (s : Store) (acct o now : Nat) (csrOk signOk upd
         | invalid => exact ou
         | ready =>
           simp only
+          split
+          · exact ou
+          rename_i hkey
           split
           · exact ou
           rename_i hcsr
@@ -580,7 +727,9 @@ theorem finalize_old (d : Deny) (s : Store) (acct o now : Nat) (csrOk signOk upd
                 rw [ho] at h; cases h
                 refine ⟨{ o1 with status := .valid, cert := some s1.certs.length },
                   by simp [setOrder, hlt1], j1.1, j1.2.1, j1.2.2.1, .inr (.inr (.inr ⟨rfl, ?_, hexp, ?_, ?_, ?_⟩))⟩
-                · simp [Op.now, hacct', hcsr', hsign', hfail']
+                · refine ⟨keyOk, by simp [Op.now, hacct', hcsr', hsign', hfail'], ?_⟩
+                  rw [orderFp_congr (s := s1) (by simp [setOrder])]
+                  simpa using hkey
                 · rcases j1.2.2.2.2 with e | ⟨_, q⟩ | ⟨p, _, _, w⟩
                   · left; rw [← e]; exact hst1
                   · rw [hst1] at q; cases q
@@ -589,10 +738,10 @@ theorem finalize_old (d : Deny) (s : Store) (acct o now : Nat) (csrOk signOk upd
                 · simp [setOrder, u.certs]
               · obtain ⟨oi', h', j⟩ := u.order i oi h
                 refine ⟨oi', by simp [setOrder, List.getElem?_set_ne e, h'], ?_⟩
-                have : OrdStep (.finalize acct o now csrOk signOk updFail) s s1 i oi oi' := ordStep_of_just j
+                have : OrdStep (.finalize acct o now keyOk csrOk signOk updFail) s s1 i oi oi' := ordStep_of_just j
                 obtain ⟨a, b, c, d⟩ := this
                 refine ⟨a, b, c, ?_⟩
-                rcases d with d | d | ⟨p, q, r, w, v⟩ | ⟨p, q, _⟩
+                rcases d with d | d | ⟨p, q, r, w, v⟩ | ⟨p, ⟨k, q, _⟩, _⟩
                 · exact .inl d
                 · exact .inr (.inl d)
                 · exact .inr (.inr (.inl ⟨p, q, r, w, fun a ha => by simpa [validAz, setOrder] using v a ha⟩))
@@ -625,12 +774,13 @@ theorem Grow.trans {s s1 s2 : Store} (g1 : Grow s s1) (g2 : Grow s1 s2) : Grow s
   · intro c hc; rcases List.mem_append.mp hc with h | h; exact py1 c h; exact py2 c h
   · intro c hc; rcases List.mem_append.mp hc with h | h; exact pz1 c h; exact pz2 c h
 
-theorem createAuthzs_grow (acct exp : Nat) : ∀ (ns : List Nat) (s : Store), Grow s (createAuthzs s acct exp ns).1 := by
+theorem createAuthzs_grow (acct exp : Nat) : ∀ (ns : List (Nat × Bool)) (s : Store), Grow s (createAuthzs s acct exp ns).1 := by
   intro ns
   induction ns with
   | nil => intro s; exact Grow.refl s
   | cons n ns ih =>
     intro s
+    obtain ⟨n, att⟩ := n
     unfold createAuthzs
     simp only
     refine Grow.trans ?_ (ih _)
@@ -678,12 +828,16 @@ theorem old_of_grow_upd {d : Deny} {op : Op} {s s2 s3 : Store} (g : Grow s s2) (
     rcases j with j | j | ⟨p, q, r, c, hc, hv⟩
     · exact .inl j
     · exact .inr (.inl j)
-    · exact .inr (.inr ⟨p, q, r, c, hc, chalValid_of_grow g hv⟩)
+    · refine .inr (.inr ⟨p, q, r, c, hc, ?_⟩)
+      unfold causeStore
+      split
+      · rw [chalValid_congr u.chals]; exact hv
+      · exact chalValid_of_grow g hv
   · intro i o h
     obtain ⟨o', h', j⟩ := u.order i o (get_of_grow_order g h)
     exact ⟨o', h', ordStep_of_just j⟩
 
-theorem newOrder_grow (d : Deny) (s : Store) (acct now : Nat) (nch : List Nat) :
+theorem newOrder_grow (d : Deny) (s : Store) (acct now : Nat) (nch : List (Nat × Bool)) :
     ∃ s2, Grow s s2 ∧ Upd now s2 (newOrder d s acct now nch).1 := by
   unfold newOrder
   split
@@ -695,14 +849,81 @@ theorem newOrder_grow (d : Deny) (s : Store) (acct now : Nat) (nch : List Nat) :
     rw [hc] at g1
     simp only
     let s2 : Store := { s1 with orders := s1.orders ++
-      [({ acct := acct, status := .pending, expires := now + lifetime, authzs := azs, cert := none } : Order)] }
+      [({ acct := acct, status := .pending, expires := now + lifetime, authzs := azs, cert := none, attested := nch.any (·.2) } : Order)] }
     have g2 : Grow s1 s2 := ⟨⟨[], by simp [s2]⟩, ⟨[], by simp [s2]⟩, ⟨_, rfl, by intro o ho; simp at ho; rw [ho]⟩, rfl⟩
-    have u := pollIndex_upd d s2 acct now [s1.orders.length]
+    have u := pollIndex_upd d s2 acct now false [s1.orders.length]
     refine ⟨s2, g1.trans g2, ?_⟩
-    cases hp : pollIndex d s2 acct now [s1.orders.length] with
+    cases hp : pollIndex d s2 acct now false [s1.orders.length] with
     | mk s3 r =>
       rw [hp] at u
       cases r <;> exact u
+
+/-! ### a Wire challenge response: `respond`, then the status recomputations of `GetAllOrdersByAccountID` -/
+
+theorem respond_certs (d : Deny) (s : Store) (acct c : Nat) (out : Outcome) :
+    (respond d s acct c out).1.certs = s.certs := by
+  unfold respond
+  repeat' split
+  all_goals rfl
+
+theorem respond_orders (d : Deny) (s : Store) (acct c : Nat) (out : Outcome) :
+    (respond d s acct c out).1.orders = s.orders := by
+  unfold respond
+  repeat' split
+  all_goals rfl
+
+theorem respond_authzs' (d : Deny) (s : Store) (acct c : Nat) (out : Outcome) :
+    (respond d s acct c out).1.authzs = s.authzs := by
+  unfold respond
+  repeat' split
+  all_goals rfl
+
+/-- the store a Wire response leaves is the one `respond` leaves, followed by status recomputations -/
+theorem wire_split (d : Deny) (s : Store) (acct c now : Nat) (dpop : Bool) (out : Outcome) :
+    Upd now (respond d s acct c out).1 (wire d s acct c now dpop out).1 := by
+  unfold wire
+  cases hr : respond d s acct c out with
+  | mk s1 r =>
+    simp only
+    split
+    · have u := pollIndex_upd d s1 acct now true []
+      cases hp : pollIndex d s1 acct now true [] with
+      | mk s2 r2 =>
+        rw [hp] at u
+        cases r2 with
+        | none => exact u
+        | some ids =>
+          simp only
+          split
+          · exact u
+          · split
+            · exact u
+            · exact u.trans (upd_of_eq now _ _ rfl rfl rfl rfl)
+    · exact Upd.refl _ _
+
+theorem old_then_upd {d : Deny} {op : Op} {s s1 s2 : Store} (hw : op.isWire = true) (O : Old d op s s1)
+    (hc : s1.certs = s.certs) (ha : s1.authzs = s.authzs) (ho : s1.orders = s.orders)
+    (u : Upd op.now s1 s2) : Old d op s s2 := by
+  refine ⟨?_, ?_, ?_, .inl (u.certs.trans hc)⟩
+  · intro i c h
+    obtain ⟨c', h', j⟩ := O.chal i c h
+    exact ⟨c', by rw [u.chals]; exact h', j⟩
+  · intro i az h
+    obtain ⟨az', h', j⟩ := u.authz i az (by rw [ha]; exact h)
+    refine ⟨az', h', ?_⟩
+    unfold causeStore
+    rw [hw]
+    exact azJust_congr u.chals j
+  · intro i o h
+    obtain ⟨o', h', j⟩ := u.order i o (by rw [ho]; exact h)
+    exact ⟨o', h', ordStep_of_just j⟩
+
+theorem wire_old (d : Deny) (s : Store) (acct c now : Nat) (dpop : Bool) (out : Outcome) :
+    Old d (.wire acct c now dpop out) s (wire d s acct c now dpop out).1 :=
+  old_then_upd (op := .wire acct c now dpop out) rfl
+    (respond_old_gen d s acct c now out (.wire acct c now dpop out) (.inr (.inr ⟨dpop, rfl⟩)))
+    (respond_certs d s acct c out) (respond_authzs' d s acct c out) (respond_orders d s acct c out)
+    (wire_split d s acct c now dpop out)
 
 theorem step_old (d : Deny) (s : Store) (op : Op) : Old d op s (step d s op).1 := by
   cases op with
@@ -710,9 +931,11 @@ theorem step_old (d : Deny) (s : Store) (op : Op) : Old d op s (step d s op).1 :
     obtain ⟨s2, g, u⟩ := newOrder_grow d s acct now nch
     exact old_of_grow_upd (op := .newOrder acct now nch) g u
   | respond acct c now out => exact respond_old d s acct c now out
+  | wire acct c now dp out => exact wire_old d s acct c now dp out
+  | attest acct c az now out => exact attest_old d s acct c az now out
   | getAuthz acct a now => exact getAuthz_old d s acct a now
   | getOrder acct o now => exact getOrder_old d s acct o now
-  | finalize acct o now c g u => exact finalize_old d s acct o now c g u
+  | finalize acct o now k c g u => exact finalize_old d s acct o now k c g u
   | listOrders acct u now => exact listOrders_old d s acct u now
 
 
@@ -734,7 +957,7 @@ theorem respond_len (d : Deny) (s : Store) (acct c : Nat) (out : Outcome) : Same
   repeat' split
   all_goals first | exact ⟨rfl, rfl, rfl⟩ | exact ⟨by simp [setChal], rfl, rfl⟩
 
-theorem finalize_len (d : Deny) (s : Store) (acct o now : Nat) (c g u : Bool) : SameLen s (finalize d s acct o now c g u).1 := by
+theorem finalize_len (d : Deny) (s : Store) (acct o now : Nat) (k : Nat) (c g u : Bool) : SameLen s (finalize d s acct o now k c g u).1 := by
   have hu := sameLen_of_upd (orderUpdate_upd d s o now).1
   unfold finalize
   cases ho : s.orders[o]? with
@@ -761,6 +984,13 @@ theorem step_len (d : Deny) (s : Store) (op : Op) (h : ∀ acct now nch, op ≠ 
   cases op with
   | newOrder acct now nch => exact absurd rfl (h acct now nch)
   | respond acct c now out => exact respond_len d s acct c out
+  | wire acct c now dp out =>
+    exact (respond_len d s acct c out).trans (sameLen_of_upd (wire_split d s acct c now dp out))
+  | attest acct c az now out =>
+    have r := respond_len d s acct c out
+    simp only [step, attest]
+    repeat' split
+    all_goals first | exact ⟨rfl, rfl, rfl⟩ | exact r | exact ⟨by simp [setChal, setFp], by simp [setChal, setFp], rfl⟩ | exact ⟨by simp [setFp], by simp [setFp], rfl⟩
   | getAuthz acct a now =>
     have u := (authzUpdate_upd d s a now).1
     simp only [step, getAuthz]
@@ -771,9 +1001,9 @@ theorem step_len (d : Deny) (s : Store) (op : Op) (h : ∀ acct now nch, op ≠ 
     simp only [step, getOrder]
     repeat' split
     all_goals first | exact ⟨rfl, rfl, rfl⟩ | (rename_i h1; rw [h1] at u; exact sameLen_of_upd u)
-  | finalize acct o now c g u => exact finalize_len d s acct o now c g u
+  | finalize acct o now k c g u => exact finalize_len d s acct o now k c g u
   | listOrders acct url now =>
-    have u := pollIndex_upd d s acct now []
+    have u := pollIndex_upd d s acct now false []
     simp only [step, listOrders]
     repeat' split
     all_goals first | exact ⟨rfl, rfl, rfl⟩ | (rename_i h1; rw [h1] at u; exact sameLen_of_upd u)
@@ -804,6 +1034,13 @@ theorem chalValid_old {d : Deny} {op : Op} {s s' : Store} (o : Old d op s s') {c
     · simp [j, h]
     · rw [h] at p; cases p
 
+theorem chalValid_cause {d : Deny} {op : Op} {s s' : Store} (o : Old d op s s') {c : Nat}
+    (h : chalValid (causeStore op s s') c = true) : chalValid s' c = true := by
+  unfold causeStore at h
+  split at h
+  · exact h
+  · exact chalValid_old o h
+
 theorem validAz_old {d : Deny} {op : Op} {s s' : Store} (o : Old d op s s') {a : Nat} (h : validAz s a) : validAz s' a := by
   obtain ⟨az, ha, hv⟩ := h
   obtain ⟨az', ha', _, _, _, j⟩ := o.authz a az ha
@@ -824,7 +1061,7 @@ theorem inv_old {d : Deny} {op : Op} {s s' : Store} (I : Inv s) (o : Old d op s 
     · obtain ⟨c, hc, hcv⟩ := I.azCause a az h (e ▸ hv)
       exact ⟨c, hc, chalValid_old o hcv⟩
     · rw [hv] at q; cases q
-    · exact ⟨c, hc, chalValid_old o hcv⟩
+    · exact ⟨c, hc, chalValid_cause o hcv⟩
   · intro i o' h' hst a ha
     obtain ⟨o0, h⟩ := some_of_len l.orders h'
     obtain ⟨o'', h'', _, _, zs, j⟩ := o.order i o0 h
@@ -1079,18 +1316,30 @@ theorem terminal_absorbing_history (h1 h2 : List Req) :
   exact gen h2 (run h1)
 
 /-- **authz_valid_cause** (the request in which it happens): an authorization turns valid only
-    from pending, at a time not after its expiry, with one of its own challenges already valid
-    before this request. -/
+    from pending, at a time not after its expiry, with one of its own challenges valid: already
+    before this request, or, when the request is a Wire challenge response (which validates the
+    challenge and then updates the account's orders), at its end. -/
 theorem authz_valid_cause (d : Deny) (s : Store) (op : Op) (i : Nat) (a a' : Authz)
     (h : s.authzs[i]? = some a) (h' : (step d s op).1.authzs[i]? = some a')
     (hn : a.status ≠ .valid) (hv : a'.status = .valid) :
-    a.status = .pending ∧ op.now ≤ a.expires ∧ ∃ c ∈ a.chals, chalValid s c = true := by
+    a.status = .pending ∧ op.now ≤ a.expires ∧
+      ∃ c ∈ a.chals, chalValid (causeStore op s (step d s op).1) c = true := by
   obtain ⟨a'', h'', _, _, _, j⟩ := (step_old d s op).authz i a h
   rw [h'] at h''; cases h''
   rcases j with e | ⟨_, q, _⟩ | ⟨p, _, r, w⟩
   · exact absurd (e ▸ hv) hn
   · rw [hv] at q; cases q
   · exact ⟨p, r, w⟩
+
+/-- authz_valid_cause for every request but a Wire challenge response: the valid challenge was
+    valid before the request -/
+theorem authz_valid_cause_pre (d : Deny) (s : Store) (op : Op) (i : Nat) (a a' : Authz)
+    (hw : op.isWire = false)
+    (h : s.authzs[i]? = some a) (h' : (step d s op).1.authzs[i]? = some a')
+    (hn : a.status ≠ .valid) (hv : a'.status = .valid) :
+    a.status = .pending ∧ op.now ≤ a.expires ∧ ∃ c ∈ a.chals, chalValid s c = true := by
+  have := authz_valid_cause d s op i a a' h h' hn hv
+  simpa [causeStore, hw] using this
 
 /-- authz_valid_cause over histories: in every reachable store a valid authorization has a valid
     challenge among its own; new authorizations start pending (`Grow`), so validity always
@@ -1128,7 +1377,8 @@ theorem order_ready_cause_history (h : List Req) (i : Nat) (o : Order)
 theorem order_valid_cause (d : Deny) (s : Store) (op : Op) (i : Nat) (o o' : Order)
     (h : s.orders[i]? = some o) (h' : (step d s op).1.orders[i]? = some o')
     (hn : o.status ≠ .valid) (hv : o'.status = .valid) :
-    op = .finalize o.acct i op.now true true false ∧ op.now ≤ o.expires ∧
+    (∃ k, op = .finalize o.acct i op.now k true true false ∧
+      keyGate (orderFp (step d s op).1 o) o.attested k = true) ∧ op.now ≤ o.expires ∧
     (o.status = .ready ∨ (o.status = .pending ∧ ∀ a ∈ o.authzs, validAz (step d s op).1 a)) ∧
     (step d s op).1.certs = s.certs ++ [⟨i, o.acct⟩] ∧ o'.cert = some s.certs.length := by
   obtain ⟨o'', h'', _, _, _, j⟩ := (step_old d s op).order i o h
@@ -1182,36 +1432,36 @@ theorem cert_iff_transition_faultFree (h : List Req) (ff : h.all Req.faultFree =
     certificate for the same order. Both ways of losing that write are shown. -/
 theorem fault_double_certificate :
     (∃ h : List Req, certsOf (run h) 0 = 2 ∧ h.all (fun r => !r.finalWriteFails) = false) ∧
-    (certsOf (run [(.none, .newOrder 0 0 [1]), (.none, .respond 0 0 1 .success), (.none, .getOrder 0 0 2),
-        (.order 0, .finalize 0 0 3 true true false), (.none, .finalize 0 0 4 true true false)]) 0 = 2) :=
-  ⟨⟨[(.none, .newOrder 0 0 [1]), (.none, .respond 0 0 1 .success), (.none, .finalize 0 0 2 true true true),
-    (.none, .finalize 0 0 3 true true false)], by decide, by decide⟩, by decide⟩
+    (certsOf (run [(.none, .newOrder 0 0 [(1, false)]), (.none, .respond 0 0 1 .success), (.none, .getOrder 0 0 2),
+        (.order 0, .finalize 0 0 3 1 true true false), (.none, .finalize 0 0 4 1 true true false)]) 0 = 2) :=
+  ⟨⟨[(.none, .newOrder 0 0 [(1, false)]), (.none, .respond 0 0 1 .success), (.none, .finalize 0 0 2 1 true true true),
+    (.none, .finalize 0 0 3 1 true true false)], by decide, by decide⟩, by decide⟩
 
 /-- every order, authorization and challenge starts pending: the empty history has no objects and a
     request only appends pending ones (`Grow`) -/
-theorem new_objects_pending (d : Deny) (s : Store) (acct now : Nat) (nch : List Nat) :
+theorem new_objects_pending (d : Deny) (s : Store) (acct now : Nat) (nch : List (Nat × Bool)) :
     ∃ s2, Grow s s2 ∧ Upd now s2 (step d s (.newOrder acct now nch)).1 := newOrder_grow d s acct now nch
 
 /-! ### the hypotheses are met by ordinary histories -/
 
 /-- a full happy path: two identifiers, both authorizations validated, order ready, finalized -/
 def happy : List Req :=
-  [.newOrder 0 100 [3, 2], .respond 0 1 101 .success, .respond 0 3 102 .success,
-   .getOrder 0 0 103, .finalize 0 0 104 true true false].map (fun op => (Deny.none, op))
+  [.newOrder 0 100 [(3, false), (2, false)], .respond 0 1 101 .success, .respond 0 3 102 .success,
+   .getOrder 0 0 103, .finalize 0 0 104 1 true true false].map (fun op => (Deny.none, op))
 
 example : (run happy).orders[0]?.map (·.status) = some .valid ∧ certsOf (run happy) 0 = 1 := by decide
 example : (run (happy.take 4)).orders[0]?.map (·.status) = some .ready := by decide
 example : (run (happy.take 3)).authzs[1]?.map (·.status) = some .pending ∧
     (run (happy.take 4)).authzs[1]?.map (·.status) = some .valid := by decide
 /-- exactly at the expiry the order is still usable, one second later it is invalid -/
-example : (run ([.newOrder 0 0 [1], .respond 0 0 5 .success, .getOrder 0 0 lifetime].map (fun op => (Deny.none, op)))).orders[0]?.map (·.status) = some .ready := by decide
-example : (run ([.newOrder 0 0 [1], .respond 0 0 5 .success, .getOrder 0 0 (lifetime + 1)].map (fun op => (Deny.none, op)))).orders[0]?.map (·.status) = some .invalid := by decide
+example : (run ([.newOrder 0 0 [(1, false)], .respond 0 0 5 .success, .getOrder 0 0 lifetime].map (fun op => (Deny.none, op)))).orders[0]?.map (·.status) = some .ready := by decide
+example : (run ([.newOrder 0 0 [(1, false)], .respond 0 0 5 .success, .getOrder 0 0 (lifetime + 1)].map (fun op => (Deny.none, op)))).orders[0]?.map (·.status) = some .invalid := by decide
 /-- a second finalize of a valid order signs nothing -/
-example : certsOf (run (happy ++ [(.none, .finalize 0 0 105 true true false)])) 0 = 1 := by decide
+example : certsOf (run (happy ++ [(.none, .finalize 0 0 105 1 true true false)])) 0 = 1 := by decide
 /-- a failed authorization write during an order evaluation: the order is not ready, the request
     fails, nothing is stored; the next evaluation succeeds -/
-example : (run [(.none, .newOrder 0 0 [1]), (.none, .respond 0 0 1 .success), (.authz 0, .getOrder 0 0 2)]).orders[0]?.map (·.status) = some .pending ∧
-    (run [(.none, .newOrder 0 0 [1]), (.none, .respond 0 0 1 .success), (.authz 0, .getOrder 0 0 2), (.none, .getOrder 0 0 3)]).orders[0]?.map (·.status) = some .ready := by decide
+example : (run [(.none, .newOrder 0 0 [(1, false)]), (.none, .respond 0 0 1 .success), (.authz 0, .getOrder 0 0 2)]).orders[0]?.map (·.status) = some .pending ∧
+    (run [(.none, .newOrder 0 0 [(1, false)]), (.none, .respond 0 0 1 .success), (.authz 0, .getOrder 0 0 2), (.none, .getOrder 0 0 3)]).orders[0]?.map (·.status) = some .ready := by decide
 
 /-! ## ownership (used by C13: "backed by a valid authorization of the same account") -/
 
@@ -1253,29 +1503,29 @@ theorem own_grow_weak {s s' : Store} (W : Own s) (g : Grow s s') :
       exact ⟨ch, get_of_grow_chal g hch, hac⟩⟩
 
 /-- one iteration of newAuthorization: `n` challenges, then the authorization -/
-def addAuthz (s : Store) (acct exp n : Nat) : Store :=
+def addAuthz (s : Store) (acct exp n : Nat) (att : Bool) : Store :=
   { s with
-    chals := s.chals ++ List.replicate n ({ acct := acct, status := .pending } : Chal)
+    chals := s.chals ++ List.replicate n ({ acct := acct, status := .pending, attest := att } : Chal)
     authzs := s.authzs ++ [({ acct := acct, status := .pending, expires := exp, chals := List.range' s.chals.length n } : Authz)] }
 
-theorem createAuthzs_cons (s : Store) (acct exp n : Nat) (ns : List Nat) :
-    createAuthzs s acct exp (n :: ns) =
-      ((createAuthzs (addAuthz s acct exp n) acct exp ns).1,
-       s.authzs.length :: (createAuthzs (addAuthz s acct exp n) acct exp ns).2) := by
+theorem createAuthzs_cons (s : Store) (acct exp n : Nat) (att : Bool) (ns : List (Nat × Bool)) :
+    createAuthzs s acct exp ((n, att) :: ns) =
+      ((createAuthzs (addAuthz s acct exp n att) acct exp ns).1,
+       s.authzs.length :: (createAuthzs (addAuthz s acct exp n att) acct exp ns).2) := by
   simp [createAuthzs, addAuthz]
 
-theorem addAuthz_grow (s : Store) (acct exp n : Nat) : Grow s (addAuthz s acct exp n) := by
+theorem addAuthz_grow (s : Store) (acct exp n : Nat) (att : Bool) : Grow s (addAuthz s acct exp n att) := by
   refine ⟨⟨_, rfl, ?_⟩, ⟨_, rfl, ?_⟩, ⟨[], by simp [addAuthz]⟩, rfl⟩
   · intro c hc; rw [List.eq_of_mem_replicate hc]
   · intro a ha; simp at ha; rw [ha]
 
-theorem addAuthz_own (s : Store) (acct exp n : Nat) (W : Own s) : Own (addAuthz s acct exp n) := by
-  obtain ⟨w1, w2⟩ := own_grow_weak W (addAuthz_grow s acct exp n)
+theorem addAuthz_own (s : Store) (acct exp n : Nat) (att : Bool) (W : Own s) : Own (addAuthz s acct exp n att) := by
+  obtain ⟨w1, w2⟩ := own_grow_weak W (addAuthz_grow s acct exp n att)
   constructor
   · intro i o h a ha
     exact w1 i o h a ha
   · intro a az h c hc
-    have ha2 : (addAuthz s acct exp n).authzs = s.authzs ++ [({ acct := acct, status := .pending, expires := exp, chals := List.range' s.chals.length n } : Authz)] := rfl
+    have ha2 : (addAuthz s acct exp n att).authzs = s.authzs ++ [({ acct := acct, status := .pending, expires := exp, chals := List.range' s.chals.length n } : Authz)] := rfl
     rw [ha2] at h
     rcases Nat.lt_or_ge a s.authzs.length with hl | hl
     · rw [List.getElem?_append_left hl] at h
@@ -1285,12 +1535,12 @@ theorem addAuthz_own (s : Store) (acct exp n : Nat) (W : Own s) : Own (addAuthz 
         have := List.mem_of_getElem? h; simpa using this
       subst haz
       simp [List.mem_range'_1] at hc
-      have hc2 : (addAuthz s acct exp n).chals = s.chals ++ List.replicate n ({ acct := acct, status := .pending } : Chal) := rfl
-      refine ⟨{ acct := acct, status := .pending }, ?_, rfl⟩
+      have hc2 : (addAuthz s acct exp n att).chals = s.chals ++ List.replicate n ({ acct := acct, status := .pending, attest := att } : Chal) := rfl
+      refine ⟨{ acct := acct, status := .pending, attest := att }, ?_, rfl⟩
       rw [hc2, List.getElem?_append_right hc.1]
       simp [List.getElem?_replicate]; omega
 
-theorem createAuthzs_own (acct exp : Nat) : ∀ (ns : List Nat) (s : Store), Own s →
+theorem createAuthzs_own (acct exp : Nat) : ∀ (ns : List (Nat × Bool)) (s : Store), Own s →
     Own (createAuthzs s acct exp ns).1 ∧ (createAuthzs s acct exp ns).1.orders = s.orders ∧
     ∀ a ∈ (createAuthzs s acct exp ns).2, ∃ az, (createAuthzs s acct exp ns).1.authzs[a]? = some az ∧ az.acct = acct := by
   intro ns
@@ -1298,10 +1548,11 @@ theorem createAuthzs_own (acct exp : Nat) : ∀ (ns : List Nat) (s : Store), Own
   | nil => intro s W; exact ⟨W, rfl, by simp [createAuthzs]⟩
   | cons n ns ih =>
     intro s W
+    obtain ⟨n, att⟩ := n
     rw [createAuthzs_cons]
-    obtain ⟨W3, ho3, hall⟩ := ih _ (addAuthz_own s acct exp n W)
-    have gg := createAuthzs_grow acct exp ns (addAuthz s acct exp n)
-    have hnew : (addAuthz s acct exp n).authzs[s.authzs.length]? = some ({ acct := acct, status := .pending, expires := exp, chals := List.range' s.chals.length n } : Authz) := by simp [addAuthz]
+    obtain ⟨W3, ho3, hall⟩ := ih _ (addAuthz_own s acct exp n att W)
+    have gg := createAuthzs_grow acct exp ns (addAuthz s acct exp n att)
+    have hnew : (addAuthz s acct exp n att).authzs[s.authzs.length]? = some ({ acct := acct, status := .pending, expires := exp, chals := List.range' s.chals.length n } : Authz) := by simp [addAuthz]
     refine ⟨W3, ho3, ?_⟩
     intro a ha
     rcases List.mem_cons.mp ha with rfl | ha
@@ -1324,7 +1575,7 @@ theorem own_step (d : Deny) (s : Store) (op : Op) (W : Own s) : Own (step d s op
       rw [hc] at W1 ho1 hall g1
       dsimp only at W1 ho1 hall g1 ⊢
       have W2 : Own { s1 with orders := s1.orders ++
-          [({ acct := acct, status := .pending, expires := now + lifetime, authzs := azs, cert := none } : Order)] } := by
+          [({ acct := acct, status := .pending, expires := now + lifetime, authzs := azs, cert := none, attested := nch.any (·.2) } : Order)] } := by
         constructor
         · intro i o h a ha
           dsimp only at h
@@ -1332,17 +1583,17 @@ theorem own_step (d : Deny) (s : Store) (op : Op) (W : Own s) : Own (step d s op
           · rw [List.getElem?_append_left hl] at h
             exact W1.ord i o h a ha
           · rw [List.getElem?_append_right hl] at h
-            have : o = ({ acct := acct, status := .pending, expires := now + lifetime, authzs := azs, cert := none } : Order) := by
+            have : o = ({ acct := acct, status := .pending, expires := now + lifetime, authzs := azs, cert := none, attested := nch.any (·.2) } : Order) := by
               have := List.mem_of_getElem? h; simpa using this
             subst this
             exact hall a ha
         · exact W1.az
       have u := pollIndex_upd d { s1 with orders := s1.orders ++
-          [({ acct := acct, status := .pending, expires := now + lifetime, authzs := azs, cert := none } : Order)] }
-        acct now [s1.orders.length]
+          [({ acct := acct, status := .pending, expires := now + lifetime, authzs := azs, cert := none, attested := nch.any (·.2) } : Order)] }
+        acct now false [s1.orders.length]
       cases hp : pollIndex d { s1 with orders := s1.orders ++
-          [({ acct := acct, status := .pending, expires := now + lifetime, authzs := azs, cert := none } : Order)] }
-        acct now [s1.orders.length] with
+          [({ acct := acct, status := .pending, expires := now + lifetime, authzs := azs, cert := none, attested := nch.any (·.2) } : Order)] }
+        acct now false [s1.orders.length] with
       | mk s3 r =>
         rw [hp] at u
         dsimp only at u
@@ -1380,6 +1631,356 @@ theorem inv_single_fault (h : List Req) :
     Inv (run h) ∧ Own (run h) ∧
     (h.all (fun r => !r.finalWriteFails) = true → CertInv (run h)) :=
   ⟨inv_run h, authz_owner h, certInv_run h⟩
+
+/-! ## the attested key fingerprint -/
+
+/-- why an authorization's recorded key may differ after a request: only through a device-attest-01
+    response with a valid attestation of key `k`, sent through this authorization's URL by the
+    account that owns both the (pending, device-attest) challenge answered and this authorization -/
+def FpJust (op : Op) (s : Store) (i : Nat) (az az' : Authz) : Prop :=
+  az'.fp = az.fp ∨
+  ∃ acct c now out k ch, op = .attest acct c i now out ∧ out.key = some k ∧ az'.fp = some k ∧
+      s.chals[c]? = some ch ∧ ch.attest = true ∧ ch.status = .pending ∧ ch.acct = acct ∧ az.acct = acct
+
+theorem respond_authzs (d : Deny) (s : Store) (acct c : Nat) (out : Outcome) :
+    (respond d s acct c out).1.authzs = s.authzs := by
+  unfold respond
+  repeat' split
+  all_goals rfl
+
+theorem getAuthz_upd (d : Deny) (s : Store) (acct a now : Nat) : Upd now s (getAuthz d s acct a now).1 := by
+  unfold getAuthz
+  split
+  · exact Upd.refl _ _
+  split
+  · exact Upd.refl _ _
+  have u := (authzUpdate_upd d s a now).1
+  cases h : authzUpdate d s a now with
+  | mk s1 r => rw [h] at u; cases r <;> exact u
+
+theorem getOrder_upd (d : Deny) (s : Store) (acct o now : Nat) : Upd now s (getOrder d s acct o now).1 := by
+  unfold getOrder
+  split
+  · exact Upd.refl _ _
+  split
+  · exact Upd.refl _ _
+  have u := (orderUpdate_upd d s o now).1
+  cases h : orderUpdate d s o now with
+  | mk s1 r => rw [h] at u; cases r <;> exact u
+
+theorem listOrders_upd (d : Deny) (s : Store) (acct url now : Nat) : Upd now s (listOrders d s acct url now).1 := by
+  unfold listOrders
+  split
+  · exact Upd.refl _ _
+  have u := pollIndex_upd d s acct now false []
+  cases h : pollIndex d s acct now false [] with
+  | mk s1 r => rw [h] at u; cases r <;> exact u
+
+theorem finalize_authzs (d : Deny) (s : Store) (acct o now : Nat) (k : Nat) (c g u : Bool) :
+    ∃ s1, Upd now s s1 ∧ (finalize d s acct o now k c g u).1.authzs = s1.authzs := by
+  have hu := (orderUpdate_upd d s o now).1
+  unfold finalize
+  cases ho : s.orders[o]? with
+  | none => exact ⟨s, Upd.refl _ _, rfl⟩
+  | some ord =>
+    simp only
+    split
+    · exact ⟨s, Upd.refl _ _, rfl⟩
+    cases h : orderUpdate d s o now with
+    | mk s1 r =>
+      rw [h] at hu
+      dsimp only at hu
+      refine ⟨s1, hu, ?_⟩
+      cases r with
+      | none => rfl
+      | some st =>
+        cases st <;> simp only
+        repeat' split
+        all_goals first | rfl | simp [setOrder]
+
+theorem step_fp (d : Deny) (s : Store) (op : Op) (i : Nat) (az : Authz) (h : s.authzs[i]? = some az) :
+    ∃ az', (step d s op).1.authzs[i]? = some az' ∧ FpJust op s i az az' := by
+  have ofUpd : ∀ {now : Nat} {s' : Store}, Upd now s s' → ∃ az', s'.authzs[i]? = some az' ∧ FpJust op s i az az' := by
+    intro now s' u
+    obtain ⟨az', h', e⟩ := u.fp i az h
+    exact ⟨az', h', .inl e⟩
+  cases op with
+  | newOrder acct now nch =>
+    obtain ⟨s2, g, u⟩ := newOrder_grow d s acct now nch
+    obtain ⟨az', h', e⟩ := u.fp i az (get_of_grow_authz g h)
+    exact ⟨az', h', .inl e⟩
+  | respond acct c now out =>
+    exact ⟨az, by simp only [step]; rw [respond_authzs]; exact h, .inl rfl⟩
+  | wire acct c now dp out =>
+    obtain ⟨az', h', e⟩ := (wire_split d s acct c now dp out).fp i az (by rw [respond_authzs]; exact h)
+    exact ⟨az', h', .inl e⟩
+  | getAuthz acct a now => exact ofUpd (getAuthz_upd d s acct a now)
+  | getOrder acct o now => exact ofUpd (getOrder_upd d s acct o now)
+  | listOrders acct u now => exact ofUpd (listOrders_upd d s acct u now)
+  | finalize acct o now k c g u =>
+    obtain ⟨s1, us, e⟩ := finalize_authzs d s acct o now k c g u
+    obtain ⟨az', h', ef⟩ := us.fp i az h
+    exact ⟨az', by simp only [step]; rw [e]; exact h', .inl ef⟩
+  | attest acct c a now out =>
+    have same : ∃ az', s.authzs[i]? = some az' ∧ FpJust (.attest acct c a now out) s i az az' := ⟨az, h, .inl rfl⟩
+    simp only [step]
+    unfold attest
+    cases hc : s.chals[c]? with
+    | none => exact same
+    | some ch =>
+      simp only
+      split
+      · exact same
+      rename_i hacct
+      split
+      · exact same
+      rename_i hst
+      split
+      · rw [respond_authzs]; exact same
+      rename_i hatt
+      cases haz : s.authzs[a]? with
+      | none => exact same
+      | some azr =>
+        simp only
+        split
+        · exact same
+        split
+        · exact same
+        rename_i hown
+        cases hk : out.key with
+        | none =>
+          simp only
+          cases out <;> simp only
+          · exact same
+          · exact same
+          · split
+            · exact same
+            · exact ⟨az, by simpa [setChal] using h, .inl rfl⟩
+          · exact same
+          · exact same
+        | some k =>
+          simp only
+          have fpw : ∃ az', (setFp s a azr k).authzs[i]? = some az' ∧ FpJust (.attest acct c a now out) s i az az' := by
+            have hlt := lt_of_getElem? haz
+            by_cases e : a = i
+            · subst e
+              rw [haz] at h; cases h
+              refine ⟨{ az with fp := some k }, by simp [setFp, hlt], .inr ⟨acct, c, now, out, k, ch, rfl, hk, rfl, hc,
+                by simpa using hatt, by simpa using hst, by simpa using hacct, ?_⟩⟩
+              have h1 : az.acct = ch.acct := by simpa using hown
+              have h2 : ch.acct = acct := by simpa using hacct
+              rw [h1, h2]
+            · exact ⟨az, by simp [setFp, List.getElem?_set_ne e, h], .inl rfl⟩
+          split
+          · exact same
+          split
+          · exact fpw
+          · obtain ⟨az', h', j⟩ := fpw
+            exact ⟨az', by simpa [setChal] using h', j⟩
+
+/-- **fp_cause** (every store, request and fault): the key recorded on an authorization changes
+    only in a device-attest-01 response with a valid attestation of that key, sent through this
+    authorization's URL by the account that owns the authorization and the pending device-attest
+    challenge answered. (Which of the account's challenges is answered is not tied to the
+    authorization: `attested_key_swap`.) -/
+theorem fp_cause (d : Deny) (s : Store) (op : Op) (i : Nat) (az az' : Authz)
+    (h : s.authzs[i]? = some az) (h' : (step d s op).1.authzs[i]? = some az') (hn : az'.fp ≠ az.fp) :
+    ∃ acct c now out k ch, op = .attest acct c i now out ∧ out.key = some k ∧ az'.fp = some k ∧
+      s.chals[c]? = some ch ∧ ch.attest = true ∧ ch.status = .pending ∧ ch.acct = acct ∧ az.acct = acct := by
+  obtain ⟨az'', h'', j⟩ := step_fp d s op i az h
+  rw [h'] at h''; cases h''
+  rcases j with e | w
+  · exact absurd e hn
+  · exact w
+
+theorem orderFp_some {s : Store} {o : Order} {k : Nat} (h : orderFp s o = some k) :
+    ∃ a ∈ o.authzs, ∃ az, s.authzs[a]? = some az ∧ az.fp = some k := by
+  unfold orderFp at h
+  obtain ⟨a, ha, e⟩ := List.exists_of_findSome?_eq_some h
+  cases haz : s.authzs[a]? with
+  | none => simp [haz] at e
+  | some az => exact ⟨a, ha, az, haz, by simpa [haz] using e⟩
+
+/-- **attested_key** (every history, every fault; full strength since /repo 365cae8 + 4f1731b): an
+    order with a permanent identifier turns valid only in a finalization whose CSR key is the key
+    recorded on one of the order's own authorizations (the first that records one). -/
+theorem attested_key (d : Deny) (s : Store) (op : Op) (i : Nat) (o o' : Order)
+    (h : s.orders[i]? = some o) (h' : (step d s op).1.orders[i]? = some o')
+    (hn : o.status ≠ .valid) (hv : o'.status = .valid) (hatt : o.attested = true) :
+    ∃ k c g u, op = .finalize o.acct i op.now k c g u ∧ orderFp (step d s op).1 o = some k ∧
+      ∃ a ∈ o.authzs, ∃ az, (step d s op).1.authzs[a]? = some az ∧ az.fp = some k := by
+  obtain ⟨⟨k, hop, hg⟩, _⟩ := order_valid_cause d s op i o o' h h' hn hv
+  rw [hatt] at hg
+  cases hf : orderFp (step d s op).1 o with
+  | none => simp [keyGate, hf] at hg
+  | some k' =>
+    simp [keyGate, hf] at hg
+    subst hg
+    exact ⟨k', true, true, false, hop, rfl, orderFp_some hf⟩
+
+/-- **attested_key_swap** (what is left of D15 after 365cae8 and 4f1731b, reproduced on the real
+    code): an account with two attested orders sends each attestation through the URL of the OTHER
+    order's authorization. Order 0 (its challenge was answered with an attestation of key 1) is
+    refused with key 1 and finalized with key 2, the key attested for order 1's identifier. -/
+theorem attested_key_swap :
+    let h : List Req := [(.none, .newOrder 0 0 [(1, true)]), (.none, .newOrder 0 1 [(1, true)]),
+      (.none, .attest 0 0 1 2 (.successKey 1)), (.none, .attest 0 1 0 3 (.successKey 2)),
+      (.none, .getOrder 0 0 4)]
+    (run h).authzs.map (·.fp) = [some 2, some 1] ∧
+    (step .none (run h) (.finalize 0 0 5 1 true true false)).2 = .unauthorized ∧
+    (step .none (run h) (.finalize 0 0 5 2 true true false)).2 = .ok .valid := by
+  decide
+
+/-- **fp_overwrite_valid** (the same gap, second shape, reproduced on the real code): the
+    fingerprint write does not look at the status of the URL's authorization. Order 0 is attested
+    honestly with key 1 and is ready; a later attestation of key 2 for order 1's challenge, sent
+    through the URL of order 0's (valid) authorization, replaces the recorded key: order 0 is now
+    refused with the key that was attested for it and finalized with key 2. -/
+theorem fp_overwrite_valid :
+    let h : List Req := [(.none, .newOrder 0 0 [(1, true)]), (.none, .attest 0 0 0 1 (.successKey 1)),
+      (.none, .getOrder 0 0 2), (.none, .newOrder 0 3 [(1, true)])]
+    (run h).authzs.map (fun a => (a.status, a.fp)) = [(.valid, some 1), (.pending, none)] ∧
+    (run h).orders[0]?.map (·.status) = some .ready ∧
+    let h' := h ++ [(.none, .attest 0 1 0 4 (.successKey 2))]
+    (run h').authzs.map (fun a => (a.status, a.fp)) = [(.valid, some 2), (.pending, none)] ∧
+    (step .none (run h') (.finalize 0 0 5 1 true true false)).2 = .unauthorized ∧
+    (step .none (run h') (.finalize 0 0 5 2 true true false)).2 = .ok .valid := by
+  decide
+
+/-- the two repaired shapes: through another account's authorization the response is refused
+    (365cae8); with the fingerprint on none of the order's authorizations the order cannot be
+    finalized with any key (4f1731b) -/
+example :
+    let h : List Req := [(.none, .newOrder 0 0 [(1, true)]), (.none, .newOrder 1 0 [(3, false)])]
+    (step .none (run h) (.attest 0 0 1 1 .success)).2 = .unauthorized := by decide
+example :
+    let h : List Req := [(.none, .newOrder 0 0 [(1, true)]), (.none, .newOrder 0 0 [(3, false)]),
+      (.none, .attest 0 0 1 1 .success), (.none, .getOrder 0 0 2)]
+    (run h).orders[0]?.map (·.status) = some .ready ∧
+    (step .none (run h) (.finalize 0 0 3 0 true true false)).2 = .unauthorized ∧
+    (step .none (run h) (.finalize 0 0 3 1 true true false)).2 = .unauthorized := by decide
+
+/-- the honest run: attestation through the order's own authorization, then only the attested key -/
+example :
+    let h : List Req := [(.none, .newOrder 0 0 [(1, true)]), (.none, .attest 0 0 0 1 (.successKey 1)), (.none, .getOrder 0 0 2)]
+    (step .none (run h) (.finalize 0 0 3 0 true true false)).2 = .unauthorized ∧
+    (step .none (run h) (.finalize 0 0 3 1 true true false)).2 = .ok .valid := by decide
+
+/-! ## accounts: a deactivated account can do nothing -/
+
+/-- the account a request is signed by -/
+def AReq.by : AReq → Option Nat
+  | .newAccount => none
+  | .req _ op => some op.acct
+  | .deactivate a => some a
+  | .keyChange a => some a
+
+theorem astep_store (a : AStore) (r : AReq) :
+    (astep a r).1.s = a.s ∨
+    ∃ d op, r = .req d op ∧ served a op.acct = true ∧ (astep a r).1.s = (step d a.s op).1 := by
+  cases r with
+  | newAccount => exact .inl rfl
+  | deactivate acct => simp only [astep]; split <;> exact .inl rfl
+  | keyChange acct => simp only [astep]; split <;> exact .inl rfl
+  | req d op =>
+    simp only [astep]
+    split
+    · rename_i h; exact .inr ⟨d, op, rfl, h, rfl⟩
+    · exact .inl rfl
+
+/-- every invariant of the object store survives the account layer -/
+theorem ainv_run (h : List AReq) : Inv (arun h).s ∧ Own (arun h).s := by
+  have gen : ∀ (h : List AReq) (a : AStore), Inv a.s ∧ Own a.s →
+      Inv (h.foldl (fun a r => (astep a r).1) a).s ∧ Own (h.foldl (fun a r => (astep a r).1) a).s := by
+    intro h
+    induction h with
+    | nil => intro a I; exact I
+    | cons r h ih =>
+      intro a I
+      apply ih
+      rcases astep_store a r with e | ⟨d, op, _, _, e⟩
+      · rw [e]; exact I
+      · rw [e]; exact ⟨inv_step d a.s op I.1, own_step d a.s op I.2⟩
+  exact gen h {} ⟨⟨by intro a az h; simp at h, by intro i o h; simp at h⟩,
+    ⟨by intro i o h; simp at h, by intro a az h; simp at h⟩⟩
+
+theorem deactivated_stays (a : AStore) (r : AReq) (i : Nat) (h : a.accts[i]? = some false) :
+    (astep a r).1.accts[i]? = some false := by
+  have hlt := lt_of_getElem? h
+  cases r with
+  | newAccount => simp only [astep]; rw [List.getElem?_append_left hlt]; exact h
+  | keyChange acct => simp only [astep]; split <;> exact h
+  | req d op => simp only [astep]; split <;> exact h
+  | deactivate acct =>
+    simp only [astep]
+    split
+    · by_cases e : acct = i
+      · subst e; simp [hlt]
+      · simp [List.getElem?_set_ne e, h]
+    · exact h
+
+/-- **deactivated_inert**: a request signed by a deactivated account never reaches a handler: the
+    whole state (objects and accounts) is unchanged and the answer is `unauthorized`. -/
+theorem deactivated_inert (a : AStore) (r : AReq) (i : Nat) (h : a.accts[i]? = some false)
+    (hb : r.by = some i) : astep a r = (a, .unauthorized) := by
+  have hs : served a i = false := by simp [served, h]
+  cases r with
+  | newAccount => cases hb
+  | req d op => simp [AReq.by] at hb; simp [astep, hb, hs]
+  | deactivate acct => simp [AReq.by] at hb; simp [astep, hb, hs]
+  | keyChange acct => simp [AReq.by] at hb; simp [astep, hb, hs]
+
+/-- over histories: once account `i` is deactivated, the state after any continuation is the state
+    after the continuation with all of `i`'s requests removed -/
+theorem deactivated_inert_history (h1 h2 : List AReq) (i : Nat) (hd : (arun h1).accts[i]? = some false) :
+    arun (h1 ++ h2) = arun (h1 ++ h2.filter (fun r => r.by != some i)) := by
+  have gen : ∀ (h2 : List AReq) (a : AStore), a.accts[i]? = some false →
+      h2.foldl (fun a r => (astep a r).1) a =
+      (h2.filter (fun r => r.by != some i)).foldl (fun a r => (astep a r).1) a := by
+    intro h2
+    induction h2 with
+    | nil => intro a _; rfl
+    | cons r h2 ih =>
+      intro a ha
+      by_cases hb : r.by = some i
+      · have := deactivated_inert a r i ha hb
+        simp only [List.foldl_cons, this]
+        rw [List.filter_cons_of_neg (by simp [hb])]
+        exact ih a ha
+      · rw [List.filter_cons_of_pos (by simpa using hb)]
+        simp only [List.foldl_cons]
+        exact ih _ (deactivated_stays a r i ha)
+  simp only [arun, List.foldl_append]
+  exact gen h2 _ hd
+
+/-- the hypothesis is reachable: an account with a pending order deactivates itself; its later
+    requests (a poll, a new order, a second deactivation) change nothing, the other account goes on -/
+example :
+    let h1 : List AReq := [.newAccount, .newAccount, .req .none (.newOrder 0 0 [(1, false)]),
+      .req .none (.respond 0 0 0 .success), .deactivate 0]
+    (arun h1).accts = [false, true] ∧
+    arun (h1 ++ [.req .none (.getOrder 0 0 1), .req .none (.newOrder 0 2 [(1, false)]), .deactivate 0,
+                 .req .none (.newOrder 1 3 [(1, false)])]) =
+      arun (h1 ++ [.req .none (.newOrder 1 3 [(1, false)])]) ∧
+    (arun h1).s.orders[0]?.map (·.status) = some .pending := by decide
+
+/-! ## source-derived table of status writes -/
+
+/-- why `authz_valid_cause` has to look at the store after the request for Wire: one Wire response
+    makes the challenge valid, the authorization valid and the order ready -/
+theorem wire_same_request :
+    let h : List Req := [(.none, .newOrder 0 0 [(1, false)]), (.none, .wire 0 0 1 false .success)]
+    (run h).chals[0]?.map (·.status) = some .valid ∧ (run h).authzs[0]?.map (·.status) = some .valid ∧
+    (run h).orders[0]?.map (·.status) = some .ready ∧
+    -- and a second response, whatever its verdict, changes nothing
+    (step .none (run h) (.wire 0 0 2 false .reject)).1 = run h := by decide
+
+/-- **statusSites_modelled** (table obligation): every place of the ACME packages that writes a
+    `Status` field is covered by a model function of `modelWriters` (whose transitions `step_old`
+    and `astep` justify) or is one of the three documented exclusions. The table is compared
+    with the go/ast-derived site list of the current source on every run. -/
+theorem statusSites_modelled :
+    ∀ e ∈ statusSites, e.2.2 ∈ modelWriters ∨ e.2.2 ∈ ["-copy", "-http", "-eab"] := by decide
 
 end Verif.AcmeSM
 
